@@ -19,7 +19,10 @@ RULE = ("one case = one store (recordings of real decorated operations whose cla
         "ids of one category; or lookup mode over a category list, in lookup order or as a RANDOM SAMPLE "
         "(random_sample=True under a seed of `random` named by the case) without a limit / with a limit smaller than, "
         "equal to and larger than the number of recordings of a category) + the set of "
-        "categories whose tuning cannot be created + a consumption script for the lazy result generators; "
+        "categories whose tuning cannot be created, each failing with an exception of its own shape (no arguments: bare "
+        "assert / raise <class> / next() of an empty generator / KeyError() / a custom class; one text; several "
+        "arguments; non-text arguments: int, None, tuple, bytes, dict, another exception; OSError family) "
+        "+ a consumption script for the lazy result generators; "
         "non-trivial = at least two prefix-related categories are involved; distinct = distinct canonical case")
 EXHAUSTIVE = {"quick": False, "thorough": False}
 ASSUMPTIONS = ["the content of a lookup is C10/C16's business: the model takes what the cassette's "
@@ -31,6 +34,9 @@ ASSUMPTIONS = ["the content of a lookup is C10/C16's business: the model takes w
                "dedicated comparison processes are modelled by C08/C13; here a few requests run on REAL worker "
                "processes and are expected to give what the in-process model gives (C08_modes_agree: no worker exits, "
                "hangs or late answers are scripted); a timing anomaly must show up three times in a row to count",
+               "a tuner fails with an Exception subclass (a BaseException - KeyboardInterrupt, SystemExit, "
+               "GeneratorExit - is not a tuning failure and is out of scope); whatever its class and arguments, the "
+               "category's result is that very object",
                "a tuning's functions behave per recording as scripted (ok / different / player, extractor, "
                "comparator raising / no output recorded / no such recording)"]
 TRUSTED = ["tagging tuner + journal in studio_driver.py; pass-through spy on the cassette's iter_recording_ids; "
@@ -844,7 +850,12 @@ MANIFEST = dict(
          'selected id is played. Lookup-driven runs also ask for a random sample (random_sample=True, seeded `random`) '
          'with no limit / a limit below, at and above the size of a category, several seeds per combination on every '
          'cassette: whatever is drawn, the drawn recordings are distinct, of that category, as many as the limit allows, '
-         'and each is replayed exactly once.',
+         'and each is replayed exactly once. A failing tuner fails in 19 ways - exceptions without arguments (bare assert, '
+         'raise of a class, next() of an empty generator, KeyError(), a custom class), with one text, several, or non-text '
+         'arguments (int, None, tuple, bytes, dict, a nested exception, the OSError family) - every way on every cassette for '
+         'an explicit and a lookup-driven request: play() returns, the failing category maps to the very exception object '
+         'the tuner raised (class and arguments compared with the model, identity checked by the driver), the other '
+         'categories replay as without the failure.',
     note='Trusted: Coq kernel + vm_compute; hand-written model; correspondence harness (tagging tuner, lookup spy, fake '
          'bucket/clock). Lookup content is an oracle specified by C10; dedicated comparison processes are C08/C13.',
     technique='Coq proof (induction over id / category lists) + model/implementation correspondence by vm_compute',
